@@ -99,15 +99,16 @@ NCalcs(h) == Cardinality({i \in DOMAIN h : h[i].f = "un" /\ h[i].op.o = "calc"})
 FreshTag(h) == IF NCalcs(h) = 0 THEN "d" ELSE "e"
 
 GeneralPreds == {PLit(TRUE), PLit(FALSE), Cmp("lt", A, B), Cmp("eq", A, Lit(0)), In(B, Range(0, 2, 1)),
+                 In(A, Range(1, -1, -1)),            \* a DESCENDING non-empty range (members 1, 0)
                  And(<<Cmp("ge", A, Lit(0)), Cmp("le", B, Lit(0))>>), Or(<<Cmp("eq", A, Lit(1)), Cmp("eq", B, Lit(0))>>),
                  Cmp("lt", D, Lit(1)), Cmp("eq", CC, A), Not(Cmp("eq", B, Lit(1)))}
-GeneralSorts == {<<>>, <<Term(A, TRUE)>>, TotalAB, <<Term(B, TRUE), Term(A, TRUE)>>, <<Term(B, FALSE)>>,
+GeneralSorts == {<<>>, <<Term(A, TRUE)>>, TotalAB, <<Term(Fn("neg", <<A>>), TRUE), Term(B, TRUE)>>, <<Term(B, TRUE), Term(A, TRUE)>>, <<Term(B, FALSE)>>,
                  <<Term(D, TRUE), Term(A, FALSE)>>, <<Term(A, FALSE), Term(CC, TRUE), Term(B, TRUE)>>}
 GeneralCalcs == {Fn("add", <<A, B>>), Fn("neg", <<A>>), Fn("mul", <<D, Lit(2)>>)}
 GeneralSlices == {Slice(0, -1), Slice(1, -1), Slice(0, 2), Slice(1, 2), Slice(0, 0), Slice(0, 1), Slice(2, 5)}
 
 FocusPreds == {Cmp("eq", A, Lit(0)), Cmp("le", B, A)}
-FocusSorts == {TotalAB, <<Term(B, TRUE)>>, <<Term(A, FALSE)>>,
+FocusSorts == {TotalAB, <<Term(B, TRUE)>>, <<Term(A, FALSE)>>, <<Term(Fn("neg", <<A>>), TRUE), Term(B, TRUE)>>,
                <<Term(B, FALSE)>>, <<Term(B, FALSE), Term(A, TRUE)>>}    \* a sub-list / a permutation of TotalAB's terms
 FocusCalcs == {Fn("add", <<A, B>>)}
 FocusSlices == {Slice(0, 1), Slice(1, 3), Slice(1, -1), Slice(1, 2)}
@@ -146,6 +147,8 @@ BinaryCalls(r) ==
            \* (the output takes them from the rhs); with min_columns={b} as well: refused unless b is common
            \cup {[f |-> "joinmx", rhs |-> n, mx |-> {"a"}, mn |-> {}] : n \in {"T3", "T3dd"}}
            \cup {[f |-> "joinmx", rhs |-> "T2", mx |-> {"a", "b"}, mn |-> {"a"}]}
+           \* the same through Join(max_columns=..).partial(operand).apply(r)
+           \cup {[f |-> "pjoinmx", rhs |-> "T3", mx |-> {"a"}]}
            \cup {[f |-> "chain", rhs |-> n] : n \in AllOperands}
            \cup {[f |-> "chainl", lhs |-> n] : n \in {"T3", "T3ss", "T3pa"}}
 
@@ -158,6 +161,9 @@ CallResult(c, r) ==
       [] c.f = "joinself" -> JoinRel(r, r, PLit(TRUE), TRUE, FALSE)
       [] c.f = "joinmx" -> Bind(OperandTree(c.rhs), LAMBDA o :
                               ApplyBinary([o |-> "join", p |-> PLit(TRUE), common |-> {}, res |-> FALSE, mx |-> c.mx, mn |-> c.mn], r, o))
+      [] c.f = "pjoinmx" -> Bind(OperandTree(c.rhs), LAMBDA o :
+                              ApplyUnary([o |-> "pjoin", fixed |-> o, p |-> PLit(TRUE), common |-> {}, res |-> FALSE, lhs |-> FALSE, mx |-> c.mx],
+                                         r, DefaultOpts))
       [] c.f = "chain" -> Bind(OperandTree(c.rhs), LAMBDA o : ApplyBinary(ChainOp, r, o))
       [] c.f = "chainl" -> Bind(OperandTree(c.lhs), LAMBDA o : ApplyBinary(ChainOp, o, r))
       [] c.f = "xfer"  -> TransferTo(r, c.dest)
@@ -169,7 +175,7 @@ CallRows(c, r, rows) ==
       [] c.f = "join"  -> JoinRows(rows, OperandRows(c.rhs), CommonCols(Cols(r), Cols(OperandTree(c.rhs))), c.p)
       [] c.f \in {"joinl", "pjoinl"} -> JoinRows(OperandRows(c.lhs), rows, CommonCols(Cols(r), Cols(OperandTree(c.lhs))), PLit(TRUE))
       [] c.f = "joinself" -> JoinRows(rows, rows, CommonCols(Cols(r), Cols(r)), PLit(TRUE))
-      [] c.f = "joinmx" -> JoinRows(rows, OperandRows(c.rhs), CommonCols(Cols(r), Cols(OperandTree(c.rhs))) \cap c.mx, PLit(TRUE))
+      [] c.f \in {"joinmx", "pjoinmx"} -> JoinRows(rows, OperandRows(c.rhs), CommonCols(Cols(r), Cols(OperandTree(c.rhs))) \cap c.mx, PLit(TRUE))
       [] c.f = "chain" -> rows \o OperandRows(c.rhs)
       [] c.f = "chainl" -> OperandRows(c.lhs) \o rows
       [] c.f = "xfer"  -> rows
@@ -257,7 +263,7 @@ RawStep(c, t) ==
       [] c.f = "join"  -> Bin(JoinOp(c.p, CommonCols(Cols(t), Cols(OperandTree(c.rhs)))), t, OperandTree(c.rhs))
       [] c.f \in {"joinl", "pjoinl"} -> Bin(JoinOp(PLit(TRUE), CommonCols(Cols(t), Cols(OperandTree(c.lhs)))), OperandTree(c.lhs), t)
       [] c.f = "joinself" -> Bin(JoinOp(PLit(TRUE), CommonCols(Cols(t), Cols(t))), t, t)
-      [] c.f = "joinmx" -> Bin(JoinOp(PLit(TRUE), CommonCols(Cols(t), Cols(OperandTree(c.rhs))) \cap c.mx), t, OperandTree(c.rhs))
+      [] c.f \in {"joinmx", "pjoinmx"} -> Bin(JoinOp(PLit(TRUE), CommonCols(Cols(t), Cols(OperandTree(c.rhs))) \cap c.mx), t, OperandTree(c.rhs))
       [] c.f = "chain" -> Bin(ChainOp, t, OperandTree(c.rhs))
       [] c.f = "chainl" -> Bin(ChainOp, OperandTree(c.lhs), t)
       [] c.f = "xfer"  -> t
